@@ -12,7 +12,9 @@ import "github.com/janelia-flyem/dvid/dvid"
 func VerifBitsFor(n uint16) uint32 { return bitsFor(n) }
 
 // VerifGetPackedValue exposes getPackedValue.
-func VerifGetPackedValue(b []byte, bitHead, bits uint32) uint16 { return getPackedValue(b, bitHead, bits) }
+func VerifGetPackedValue(b []byte, bitHead, bits uint32) uint16 {
+	return getPackedValue(b, bitHead, bits)
+}
 
 // VerifGetNumVoxels exposes Block.getNumVoxels.
 func VerifGetNumVoxels(b *Block, labelIndex uint32) uint64 { return b.getNumVoxels(labelIndex) }
@@ -23,5 +25,9 @@ func VerifDownresArray(hires, lores []byte, vx, vy, vz int32, blockSize dvid.Poi
 }
 
 // VerifSplitSlow and VerifSplitFast expose the two split implementations.
-func VerifSplitSlow(pb PositionedBlock, op SplitOp) (*Block, uint64, uint64, error) { return pb.splitSlow(op) }
-func VerifSplitFast(pb PositionedBlock, op SplitOp) (*Block, uint64, uint64, error) { return pb.splitFast(op) }
+func VerifSplitSlow(pb PositionedBlock, op SplitOp) (*Block, uint64, uint64, error) {
+	return pb.splitSlow(op)
+}
+func VerifSplitFast(pb PositionedBlock, op SplitOp) (*Block, uint64, uint64, error) {
+	return pb.splitFast(op)
+}
